@@ -24,7 +24,10 @@ KX(x) ==
       za == ZA(IdBytes(x.ida), PA.x, PA.y) zb == ZA(IdBytes(x.idb), PB.x, PB.y)
       inner == Digest(B32(V.x) \o za \o zb \o B32(RA.x) \o B32(RA.y) \o B32(RB.x) \o B32(RB.y))
   IN IF x.kind = "findkx" THEN [xlen |-> Len(BToBytes(V.x, 0)), ylen |-> Len(BToBytes(V.y, 0)), same |-> U = V]
-     ELSE [same |-> U = V, pa |-> <<PA.x, PA.y>>, pb |-> <<PB.x, PB.y>>, ra |-> <<RA.x, RA.y>>, rb |-> <<RB.x, RB.y>>,
+     ELSE [same |-> U = V,
+           \* A5 / B5 of the standard: a party whose point is the point at infinity (t = 0 mod n, or P = -[x~]R) fails
+           fail |-> U.inf \/ V.inf,
+           pa |-> <<PA.x, PA.y>>, pb |-> <<PB.x, PB.y>>, ra |-> <<RA.x, RA.y>>, rb |-> <<RB.x, RB.y>>,
            k |-> KDF(B32(V.x) \o B32(V.y) \o za \o zb, x.klen),
            s1 |-> Digest(<<2>> \o B32(V.y) \o inner), s2 |-> Digest(<<3>> \o B32(V.y) \o inner)]
 
